@@ -124,6 +124,14 @@ func (ee *exprEval) evalTransform(assign Scope, x *sysl.Expr_Transform_, e *sysl
 			assign["."] = dotValue
 		}
 	}()
+	// A nested transform may name its scope variable like a variable of the enclosing scope:
+	// the iteration overwrites and then deletes that name, so restore the outer binding as for ".".
+	outerScopeValue, hasOuterScopeVar := assign[x.Transform.Scopevar]
+	defer func() {
+		if hasOuterScopeVar {
+			assign[x.Transform.Scopevar] = outerScopeValue
+		}
+	}()
 
 	switch argValue.Value.(type) {
 	case *sysl.Value_Set, *sysl.Value_List_:
